@@ -18,7 +18,8 @@ run() { # engine variant runs
 }
 run pwdsim "" $((RUNS*10)) &
 run streamsim "" $((RUNS*30)) &
-for v in base alloc badarg wipe; do run faultcall $v $RUNS & done
+run faultcall base $((RUNS*6)) &
+for v in alloc badarg wipe; do run faultcall $v $RUNS & done
 for v in "" once exit; do run mtsim "$v" $((RUNS*3)) & done
 wait
 for v in bake bakealloc bakesweep bakebase bakediff bakeadv baketape sm cvc pki; do run protosim $v $((RUNS/3)) & done
